@@ -66,7 +66,12 @@ func runC03(p *Prog, r *Report) {
 		st := sm.Ev("store", "recv.reqID")
 		var inst Sel
 		for _, e := range st {
-			if strings.Contains(e.Args[0], "| 2147483648)") {
+			arg := e.Args[0]
+			if sx, ok := e.In.(*ssa.Store); ok {
+				// the id may live in a local that a timer callback captures
+				arg = DescCell(sx.Val)
+			}
+			if strings.Contains(arg, "| 2147483648)") {
 				inst = append(inst, e)
 			}
 		}
@@ -81,7 +86,14 @@ func runC03(p *Prog, r *Report) {
 			r.Describe(R2, "every request id is the next value of the single counter kept in the socket (atomic.AddUint32(&s.nextID, 1)), and nothing else writes that counter: the ids of requests that are outstanding together differ")
 			ad := sm.Ev("call", "atomic.AddUint32")
 			okSrc := len(ad) == 1 && len(ad[0].Args) == 2 && strings.HasSuffix(ad[0].Args[0], ".s.nextID") && ad[0].Args[1] == "1"
-			okUse := len(inst) == 1 && okSrc && strings.Contains(inst[0].Args[0], "atomic.AddUint32("+ad[0].Args[0]+",1)")
+			instArg := ""
+			if len(inst) == 1 {
+				instArg = inst[0].Args[0]
+				if sx, ok := inst[0].In.(*ssa.Store); ok {
+					instArg = DescCell(sx.Val)
+				}
+			}
+			okUse := len(inst) == 1 && okSrc && strings.Contains(instArg, "atomic.AddUint32("+ad[0].Args[0]+",1)")
 			r.Check(okSrc && okUse, R2, "req.SendMsg/id-from-socket-counter", ad.Pos(p), "id = AddUint32(&s.nextID, 1) | marker", "the request id is not the next value of the socket-wide counter ("+argsOf(ad)+"): contexts that draw ids from counters of their own can give two outstanding requests the same id, and the reply to one is delivered as the reply to the other")
 			w := p.PostPubWritersOf("protocol/req.socket.nextID")
 			q.OnlyIn(R2, "writers-of-socket.nextID", w, []string{"protocol/req.(*context).SendMsg"}, nil)
